@@ -17,6 +17,63 @@ use super::*;
 
 crate::c13_ghost_support!();
 
+// MAP MODEL.  TreeSecretsVec keeps the node secrets in a std HashMap; hashbrown's SIMD probing
+// is beyond CBMC (one insert does not finish symbolic execution in 10 minutes).  The two
+// accessors through which the secret tree touches that map,
+//     TreeSecretsVec::set_node(index, value)  = inner.insert(index, value)
+//     TreeSecretsVec::take_node(&index)       = inner.remove(&index)
+// are replaced by an array-backed map with the same insert / remove semantics.
+const MODEL_N: usize = 16;
+static mut MODEL: [Option<SecretTreeNode>; MODEL_N] = [const { None }; MODEL_N];
+
+fn model_slot<T>(index: &T) -> &'static mut Option<SecretTreeNode> {
+    assert!(core::mem::size_of::<T>() == 4);
+    let i = unsafe { core::mem::transmute_copy::<T, u32>(index) } as usize;
+    assert!(i < MODEL_N);
+    unsafe { &mut (*core::ptr::addr_of_mut!(MODEL))[i] }
+}
+
+fn model_set_node<T: TreeIndex>(_this: &mut TreeSecretsVec<T>, index: T, value: SecretTreeNode) {
+    // (the replaced value is not dropped: no drop glue for the harness to execute)
+    core::mem::forget(core::mem::replace(model_slot(&index), Some(value)));
+}
+
+fn model_take_node<T: TreeIndex>(_this: &mut TreeSecretsVec<T>, index: &T) -> Option<SecretTreeNode> {
+    model_slot(index).take()
+}
+
+fn model_len() -> usize {
+    let mut n = 0;
+    let mut i = 0;
+    while i < MODEL_N {
+        if model_slot(&(i as u32)).is_some() {
+            n += 1;
+        }
+        i += 1;
+    }
+    n
+}
+
+fn node_secret(i: u32) -> Option<&'static [u8]> {
+    match model_slot(&i) {
+        Some(SecretTreeNode::Secret(s)) => Some(s.0.as_slice()),
+        _ => None,
+    }
+}
+
+/// run `f` once per concrete value k in 0..n of a symbolic index
+fn for_each_below(n: u32, mut f: impl FnMut(u32)) {
+    let x: u32 = kani::any();
+    kani::assume(x < n);
+    let mut k = 0;
+    while k < n {
+        if x == k {
+            f(k);
+        }
+        k += 1;
+    }
+}
+
 // Independent child computation (not the xor formulas of math.rs / RFC appendix C): a node
 // whose index ends in k one-bits (k >= 1) is the root of a subtree of 2^k leaves; its
 // children are the midpoints of the two halves, 2^(k-1) below / above it.
@@ -30,56 +87,72 @@ fn spec_level(x: u32) -> u32 {
     k
 }
 
-fn node_secret<'a>(t: &'a SecretTree<u32>, i: u32) -> Option<&'a [u8]> {
-    match t.known_secrets.inner.get(&i) {
-        Some(SecretTreeNode::Secret(s)) => Some(s.0.as_slice()),
-        _ => None,
-    }
-}
-
-fn tree_with(leaf_count: u32, index: u32, secret: &[u8]) -> SecretTree<u32> {
-    let mut t = SecretTree::<u32>::empty();
-    t.leaf_count = leaf_count;
-    t.known_secrets
-        .set_node(index, SecretTreeNode::Secret(TreeSecret::from(secret.to_vec())));
-    t
+// ------------------------------------------------------------ SecretTree::new
+// the encryption secret is the secret of the root: node n - 1 of a tree of n (power of two) leaves
+#[kani::proof]
+#[kani::stub(zeroize::optimization_barrier, noop_barrier)]
+#[kani::stub(std::hash::RandomState::new, fixed_random_state)]
+#[kani::stub(crate::group::secret_tree::TreeSecretsVec::set_node, model_set_node)]
+#[kani::stub(crate::group::secret_tree::TreeSecretsVec::take_node, model_take_node)]
+#[kani::unwind(18)]
+fn c13_tree_new_bounded_8() {
+    let enc = any_exact::<NH>();
+    let e: u32 = kani::any();
+    kani::assume(e <= 3);
+    let leaves = 1u32 << e;
+    let t = SecretTree::<u32>::new(leaves, Zeroizing::new(enc.clone()));
+    kani::cover!(leaves == 8);
+    kani::cover!(leaves == 1);
+    assert!(t.leaf_count == leaves);
+    assert!(model_len() == 1);
+    // root of the left-balanced tree with `leaves` leaves: 2^k - 1 with 2^k = leaves
+    assert!(bytes_eq(node_secret(leaves - 1).unwrap(), &enc));
+    core::mem::forget(t);
 }
 
 // ------------------------------------------------------------ consume_node
 // every parent node of a 8-leaf tree (indices 1, 3, 5, 7, 9, 11, 13), symbolic secret
 #[kani::proof]
 #[kani::stub(zeroize::optimization_barrier, noop_barrier)]
-#[kani::unwind(12)]
+#[kani::stub(std::hash::RandomState::new, fixed_random_state)]
+#[kani::stub(crate::group::secret_tree::TreeSecretsVec::set_node, model_set_node)]
+#[kani::stub(crate::group::secret_tree::TreeSecretsVec::take_node, model_take_node)]
+#[kani::unwind(18)]
 fn c13_consume_node_bounded_8() {
-    let p = GhostProvider::new();
     let secret = any_exact::<NH>();
-    let half: u32 = kani::any();
-    kani::assume(half < 7);
-    let index = 2 * half + 1;
-    let mut t = tree_with(8, index, &secret);
+    for_each_below(7, |half| {
+        let p = GhostProvider::new();
+        let index = 2 * half + 1;
+        let mut t = SecretTree::<u32>::empty();
+        t.leaf_count = 8;
+        t.known_secrets
+            .set_node(index, SecretTreeNode::Secret(TreeSecret::from(secret.clone())));
 
-    let r = t.consume_node(&p, &index);
-    assert!(r.is_ok());
-    kani::cover!(index == 7);
-    kani::cover!(index == 13);
+        let r = t.consume_node(&p, &index);
+        assert!(r.is_ok());
+        kani::cover!(index == 7);
+        kani::cover!(index == 13);
 
-    let k = spec_level(index);
-    let left = index - (1u32 << (k - 1));
-    let right = index + (1u32 << (k - 1));
-    assert!(p.calls() == 2);
-    let l = p.find(Op::Expand, &secret, &rfc_kdf_label(NH as u16, b"tree", b"left"), NH);
-    let r = p.find(Op::Expand, &secret, &rfc_kdf_label(NH as u16, b"tree", b"right"), NH);
-    assert!(l.is_some() && r.is_some());
-    // the consumed node is gone, exactly the two children were added
-    assert!(t.known_secrets.inner.len() == 2);
-    assert!(node_secret(&t, index).is_none());
-    assert!(is_out(node_secret(&t, left).unwrap(), l.unwrap(), NH));
-    assert!(is_out(node_secret(&t, right).unwrap(), r.unwrap(), NH));
+        let k = spec_level(index);
+        let left = index - (1u32 << (k - 1));
+        let right = index + (1u32 << (k - 1));
+        assert!(p.calls() == 2);
+        let l = p.find(Op::Expand, &secret, &rfc_kdf_label(NH as u16, b"tree", b"left"), NH);
+        let r = p.find(Op::Expand, &secret, &rfc_kdf_label(NH as u16, b"tree", b"right"), NH);
+        assert!(l.is_some() && r.is_some());
+        // the consumed node is gone, exactly the two children were added
+        assert!(model_len() == 2);
+        assert!(node_secret(index).is_none());
+        assert!(is_out(node_secret(left).unwrap(), l.unwrap(), NH));
+        assert!(is_out(node_secret(right).unwrap(), r.unwrap(), NH));
+        core::mem::forget(t);
+    });
 }
 
 // ------------------------------------------------------------ SecretKeyRatchet::new
 #[kani::proof]
 #[kani::stub(zeroize::optimization_barrier, noop_barrier)]
+#[kani::stub(std::hash::RandomState::new, fixed_random_state)]
 #[kani::unwind(12)]
 fn c13_ratchet_new() {
     let p = GhostProvider::new();
@@ -101,6 +174,7 @@ fn c13_ratchet_new() {
 
 #[kani::proof]
 #[kani::stub(zeroize::optimization_barrier, noop_barrier)]
+#[kani::stub(std::hash::RandomState::new, fixed_random_state)]
 #[kani::unwind(12)]
 fn c13_ratchet_new_provider_error() {
     let p = GhostProvider::failing_at(0);
@@ -124,34 +198,38 @@ fn ratchet(secret: &[u8], generation: u32) -> SecretKeyRatchet {
 // every generation (u32), every length 0..=65535, label of <= 4 symbolic bytes
 #[kani::proof]
 #[kani::stub(zeroize::optimization_barrier, noop_barrier)]
+#[kani::stub(std::hash::RandomState::new, fixed_random_state)]
 #[kani::unwind(12)]
 fn c13_ratchet_derive_secret_bounded_4() {
-    let p = GhostProvider::new();
     let secret = any_exact::<NH>();
     let generation: u32 = kani::any();
-    let label = any_bytes::<4>();
+    let l: [u8; 4] = kani::any();
     let len: usize = kani::any();
     kani::assume(len <= 0xffff);
     let rt = ratchet(&secret, generation);
+    for_each_prefix(&l, |label| {
+        let p = GhostProvider::new();
+        let r = rt.derive_secret(&p, label, len);
+        assert!(r.is_ok());
+        let o = r.ok().unwrap();
+        kani::cover!(generation == 0x0102_0304 && len == 0xffff && label.len() == 4);
 
-    let r = rt.derive_secret(&p, &label, len);
-    assert!(r.is_ok());
-    let o = r.ok().unwrap();
-    kani::cover!(generation == 0x0102_0304 && len == 0xffff && label.len() == 4);
-
-    let mut ctx = Vec::new();
-    rfc_u32(&mut ctx, generation);
-    assert!(p.calls() == 1);
-    assert!(p.is(0, Op::Expand, &secret, &rfc_kdf_label(len as u16, &label, &ctx), len));
-    assert!(o.len() == len);
-    let i: usize = kani::any();
-    kani::assume(i < len);
-    assert!(o[i] == 1);
-    core::mem::forget(o);
+        let mut ctx = Vec::new();
+        rfc_u32(&mut ctx, generation);
+        assert!(p.calls() == 1);
+        assert!(p.is(0, Op::Expand, &secret, &rfc_kdf_label(len as u16, label, &ctx), len));
+        assert!(o.len() == len);
+        let i: usize = kani::any();
+        kani::assume(i < len);
+        assert!(o[i] == 1);
+        core::mem::forget(o);
+    });
+    core::mem::forget(rt);
 }
 
 #[kani::proof]
 #[kani::stub(zeroize::optimization_barrier, noop_barrier)]
+#[kani::stub(std::hash::RandomState::new, fixed_random_state)]
 #[kani::unwind(12)]
 fn c13_ratchet_derive_secret_provider_error() {
     let p = GhostProvider::failing_at(0);
@@ -167,6 +245,7 @@ fn c13_ratchet_derive_secret_provider_error() {
 // every generation j < 2^32 - 1 (at j = 2^32 - 1 the code's `generation + 1` overflows)
 #[kani::proof]
 #[kani::stub(zeroize::optimization_barrier, noop_barrier)]
+#[kani::stub(std::hash::RandomState::new, fixed_random_state)]
 #[kani::unwind(12)]
 fn c13_ratchet_next_message_key() {
     let p = GhostProvider::new();
@@ -197,6 +276,7 @@ fn c13_ratchet_next_message_key() {
 // a provider failure at any of the three derivations is reported as CryptoProviderError
 #[kani::proof]
 #[kani::stub(zeroize::optimization_barrier, noop_barrier)]
+#[kani::stub(std::hash::RandomState::new, fixed_random_state)]
 #[kani::unwind(12)]
 fn c13_ratchet_next_message_key_provider_error() {
     let at: usize = kani::any();
@@ -220,15 +300,20 @@ fn c13_ratchet_next_message_key_provider_error() {
 // and the sibling secrets on the way stay in the tree.
 #[kani::proof]
 #[kani::stub(zeroize::optimization_barrier, noop_barrier)]
-#[kani::unwind(12)]
+#[kani::stub(std::hash::RandomState::new, fixed_random_state)]
+#[kani::stub(crate::group::secret_tree::TreeSecretsVec::set_node, model_set_node)]
+#[kani::stub(crate::group::secret_tree::TreeSecretsVec::take_node, model_take_node)]
+#[kani::unwind(18)]
 fn c13_tree_first_message_key_bounded_4() {
-    let p = GhostProvider::new();
     let enc = any_exact::<NH>();
-    let leaf: u32 = kani::any();
-    kani::assume(leaf < 4);
     let handshake: bool = kani::any();
+    for_each_below(4, |leaf| first_message_key_case(&enc, leaf, handshake));
+}
+
+fn first_message_key_case(enc: &[u8], leaf: u32, handshake: bool) {
+    let p = GhostProvider::new();
     let kt = if handshake { KeyType::Handshake } else { KeyType::Application };
-    let mut t = SecretTree::<u32>::new(4, Zeroizing::new(enc.clone()));
+    let mut t = SecretTree::<u32>::new(4, Zeroizing::new(enc.to_vec()));
 
     let r = t.next_message_key(&p, 2 * leaf, kt);
     assert!(r.is_ok());
@@ -239,8 +324,8 @@ fn c13_tree_first_message_key_bounded_4() {
     // 4 leaves: nodes 0..=6, root 3, its children 1 and 5, leaves 0 2 4 6
     let left_l = rfc_kdf_label(NH as u16, b"tree", b"left");
     let right_l = rfc_kdf_label(NH as u16, b"tree", b"right");
-    let root_l = p.find(Op::Expand, &enc, &left_l, NH);
-    let root_r = p.find(Op::Expand, &enc, &right_l, NH);
+    let root_l = p.find(Op::Expand, enc, &left_l, NH);
+    let root_r = p.find(Op::Expand, enc, &right_l, NH);
     assert!(root_l.is_some() && root_r.is_some());
     let (mid, other_mid, other_mid_idx) = if leaf < 2 {
         (root_l.unwrap(), root_r.unwrap(), 5u32)
@@ -255,14 +340,15 @@ fn c13_tree_first_message_key_bounded_4() {
     } else {
         (mid_r.unwrap(), mid_l.unwrap(), 2 * leaf - 2)
     };
-    let hs = p.find(Op::Expand, &out(leaf_tag, NH), &rfc_kdf_label(NH as u16, b"handshake", &[]), NH);
-    let ap = p.find(Op::Expand, &out(leaf_tag, NH), &rfc_kdf_label(NH as u16, b"application", &[]), NH);
+    let leaf_secret = out(leaf_tag, NH);
+    let hs = p.find(Op::Expand, &leaf_secret, &rfc_kdf_label(NH as u16, b"handshake", &[]), NH);
+    let ap = p.find(Op::Expand, &leaf_secret, &rfc_kdf_label(NH as u16, b"application", &[]), NH);
     assert!(hs.is_some() && ap.is_some());
-    let used = if handshake { hs.unwrap() } else { ap.unwrap() };
+    let used = out(if handshake { hs.unwrap() } else { ap.unwrap() }, NH);
     let gen0 = [0u8, 0, 0, 0];
-    let n = p.find(Op::Expand, &out(used, NH), &rfc_kdf_label(NN as u16, b"nonce", &gen0), NN);
-    let e = p.find(Op::Expand, &out(used, NH), &rfc_kdf_label(NK as u16, b"key", &gen0), NK);
-    let s = p.find(Op::Expand, &out(used, NH), &rfc_kdf_label(NH as u16, b"secret", &gen0), NH);
+    let n = p.find(Op::Expand, &used, &rfc_kdf_label(NN as u16, b"nonce", &gen0), NN);
+    let e = p.find(Op::Expand, &used, &rfc_kdf_label(NK as u16, b"key", &gen0), NK);
+    let s = p.find(Op::Expand, &used, &rfc_kdf_label(NH as u16, b"secret", &gen0), NH);
     assert!(n.is_some() && e.is_some() && s.is_some());
     assert!(p.calls() == 9);
     assert!(is_out(&k.nonce, n.unwrap(), NN));
@@ -270,10 +356,10 @@ fn c13_tree_first_message_key_bounded_4() {
     assert!(k.generation == 0);
 
     // tree afterwards: the two copath secrets and the leaf's ratchets
-    assert!(t.known_secrets.inner.len() == 3);
-    assert!(is_out(node_secret(&t, other_mid_idx).unwrap(), other_mid, NH));
-    assert!(is_out(node_secret(&t, sib_idx).unwrap(), sib_tag, NH));
-    match t.known_secrets.inner.get(&(2 * leaf)) {
+    assert!(model_len() == 3);
+    assert!(is_out(node_secret(other_mid_idx).unwrap(), other_mid, NH));
+    assert!(is_out(node_secret(sib_idx).unwrap(), sib_tag, NH));
+    match model_slot(&(2 * leaf)) {
         Some(SecretTreeNode::Ratchet(rs)) => {
             let (used_r, idle_r, idle_tag) = if handshake {
                 (&rs.handshake, &rs.application, ap.unwrap())
@@ -285,15 +371,11 @@ fn c13_tree_first_message_key_bounded_4() {
         }
         _ => assert!(false),
     }
-}
-
-#[kani::proof]
-#[kani::stub(zeroize::optimization_barrier, noop_barrier)]
-#[kani::stub(std::hash::RandomState::new, fixed_random_state)]
-#[kani::unwind(12)]
-fn x9_hashmap_one_insert() {
-    let secret = any_exact::<NH>();
-    let t = SecretTree::<u32>::new(4, Zeroizing::new(secret.clone()));
-    assert!(t.known_secrets.inner.len() == 1);
-    core::mem::forget(t);
+    // leave the model empty for the next case
+    let mut i = 0;
+    while i < MODEL_N {
+        core::mem::forget(model_slot(&(i as u32)).take());
+        i += 1;
+    }
+    core::mem::forget((t, k));
 }
